@@ -81,7 +81,7 @@ def run_extent_ctor(rep, tier):
             cnt = None
             if len(news) == 1:
                 for x in c05.subterms(news[0].args[0]):
-                    if x[0] == 'call' and x[1] and x[1].startswith("llvm.umul.with.overflow") and x[4] == ('ci', stride, 64):
+                    if x[0] in ('call', 'fn') and x[1] and x[1].startswith("llvm.umul.with.overflow") and x[4] == ('ci', stride, 64):
                         cnt = x[3]
                     elif x[0] == 'op' and x[1] == 'mul' and x[4] == ('ci', stride, 64) and cnt is None:
                         cnt = x[3]
@@ -160,7 +160,7 @@ def run_array(rep, tier):
                 a = news[0].args[0]
                 cnt = None
                 for x in c05.subterms(a):
-                    if x[0] == 'call' and x[1] and x[1].startswith("llvm.umul.with.overflow") and x[4] == ('ci', stride, 64):
+                    if x[0] in ('call', 'fn') and x[1] and x[1].startswith("llvm.umul.with.overflow") and x[4] == ('ci', stride, 64):
                         cnt = x[3]
                     elif x[0] == 'op' and x[1] in ('mul', 'shl') and cnt is None:
                         if x[1] == 'mul' and x[4] == ('ci', stride, 64):
